@@ -467,3 +467,17 @@ def finish_proof_failures(rep):
         rep.violation({"kind": "proof-obligation-broken", "what": fails}, concrete=False)
     elif fails:
         rep.violation({"kind": "proof-obligation-broken", "what": fails}, concrete=False)
+
+
+def build_both(rep):
+    with Lock():
+        okm, logm = build_model()
+        okh, logh = build_harness()
+    if not okm:
+        rep.violation({"kind": "model-build-failed", "log": logm[-2000:]}, concrete=False)
+        return False
+    if not okh:
+        rep.violation({"kind": "harness-build-failed: the implementation no longer builds against /verif/harness",
+                       "log": logh[-3000:]}, concrete=False)
+        return False
+    return True
